@@ -97,6 +97,10 @@ func (b *BFS) Run() {
 	}
 	res := b.Res
 	res.Kind = "bfs"
+	if b.Env.Replay != "" {
+		b.replay()
+		return
+	}
 	seen := map[[16]byte]struct{}{}
 	ok, key, viol, ps := b.exec(nil)
 	if !ok || ps != "" {
@@ -231,6 +235,47 @@ func (b *BFS) Run() {
 	res.Traces = res.Transitions*int64(1+b.Repeats) + 1
 	res.Evaluations = res.Traces
 	res.Distinct = res.States
+}
+
+// replay executes exactly the history stored in the replay file (VERIF_REPLAY) and reports its verdict.
+func (b *BFS) replay() {
+	var rp struct {
+		Idx []uint8  `json:"idx"`
+		Ops []string `json:"ops"`
+	}
+	part, _ := b.Env.ReplayData(&rp)
+	res := b.Res
+	if part != "" && part != res.Part {
+		return
+	}
+	if len(rp.Idx) == 0 && len(rp.Ops) > 0 {
+		// resolve by name (robust against alphabet re-ordering)
+		for _, n := range rp.Ops {
+			found := false
+			for i := 0; i < b.NumOps; i++ {
+				if b.OpName(i) == n {
+					rp.Idx = append(rp.Idx, uint8(i))
+					found = true
+					break
+				}
+			}
+			if !found {
+				panic("mc: replay op not in alphabet: " + n)
+			}
+		}
+	}
+	viol, key := b.ReplayOps(rp.Idx)
+	fmt.Printf("REPLAY part=%s ops=%v\n", res.Part, b.names(rp.Idx))
+	for _, v := range viol {
+		fmt.Printf("REPLAY VIOLATION key=%s what=%s\n", v.Key, v.What)
+		v.Replay = map[string]any{"ops": b.names(rp.Idx), "idx": rp.Idx}
+		res.Violate(v)
+	}
+	if len(viol) == 0 {
+		fmt.Printf("REPLAY OK (no clause violated); state key digest %x\n", hkey(key))
+	}
+	res.States, res.Transitions, res.Traces, res.Evaluations, res.Distinct = 1, int64(len(rp.Idx)), 1, 1, 1
+	res.Sample(b.names(rp.Idx))
 }
 
 // confirm re-executes a violating history from scratch and records how often the violation key reappears.
